@@ -93,7 +93,7 @@ def render(case, r, derive=True):
         for i, v in enumerate(src["variants"], 1):
             attrs = []
             if derive:
-                ident_cps = [ord(c) for c in v["id"]]
+                ident_cps = [ord(c) for c in (v["id"][2:] if v["id"].startswith("r#") else v["id"])]    # r#type names `type`
                 if v["name"] != ident_cps:
                     attrs.append(f"#[enum_tools(rename = {rust_str(''.join(chr(c) for c in v['name']))})]")
                 if cfg["varattr"]["at"] == i:
